@@ -176,16 +176,21 @@ structure EmitOpts where
   abiOverrides : Bool        -- the header's functions are given the four gated ABIs
   deriving DecidableEq, Repr
 
+/-- `let cstr = if options.generate_cstr && rust_features.const_cstr [&& (!use_core || core_ffi_c)]`;
+    `gate` = the bracketed conjunct is present in the source (`Generated.cstrCoreGate`) -/
+def cstrOn (gate : Bool) (fs : Feature → Bool) (o : EmitOpts) : Bool :=
+  o.generateCstr && fs .const_cstr && (!gate || !o.useCore || fs .core_ffi_c)
+
 /-- decision model of the gate sites (codegen/mod.rs, codegen/helpers.rs, ir/function.rs) on a
     header that has functions, a static, a string macro, a struct with fields and a FAM struct;
     layout tests on, no `--ctypes-prefix` -/
-def emits (fs : Feature → Bool) (o : EmitOpts) : Construct → Bool
+def emits (gate : Bool) (fs : Feature → Bool) (o : EmitOpts) : Construct → Bool
   | .unsafeExternBlock => fs .unsafe_extern_blocks
   | .offsetOf => fs .offset_of
-  | .cstrLiteral => o.generateCstr && fs .const_cstr && fs .literal_cstr
-  | .constCStrUnchecked => o.generateCstr && fs .const_cstr && !fs .literal_cstr
+  | .cstrLiteral => cstrOn gate fs o && fs .literal_cstr
+  | .constCStrUnchecked => cstrOn gate fs o && !fs .literal_cstr
   | .coreFfiCType => o.useCore && fs .core_ffi_c
-  | .coreFfiCStr => o.useCore && o.generateCstr && fs .const_cstr
+  | .coreFfiCStr => o.useCore && cstrOn gate fs o
   | .abiThiscall => o.abiOverrides && fs .thiscall_abi
   | .abiVectorcall => o.abiOverrides && fs .vectorcall_abi
   | .abiCUnwind => o.abiOverrides && fs .c_unwind_abi
